@@ -115,7 +115,7 @@ int Model::pending_routed() const {
 }
 
 bool Model::has_unbound_routed() const {
-	for (auto &r : routed) if (r.state == 0 && r.timerfd < 0) return true;
+	for (auto &r : routed) if (r.state == 0 && r.timerfd == -1) return true;
 	return false;
 }
 
@@ -185,7 +185,7 @@ static std::set<std::string> group_names(const JV *access, const char *key, cons
 
 bool Model::do_add(int c, const JV &req, const JV &params) {
 	Peer &p = peers[c];
-	if (add_local_only && !p.local) { respond(c, req, Exp::R_ERR_DAEMON, "C08", "add from non-local origin"); return true; }
+	if (add_local_only && !p.local) { host->probe("add_from_foreign_origin"); respond(c, req, Exp::R_ERR_DAEMON, "C08", "add from non-local origin"); return true; }
 	const JV *path = params.get("path");
 	if (!path || path->t != JV::Str) { respond(c, req, Exp::R_ERR_DAEMON, "C04", "add without string path"); return true; }
 	const JV *fo = params.get("fetchOnly");
@@ -213,6 +213,7 @@ bool Model::do_add(int c, const JV &req, const JV &params) {
 	e.cg = group_names(access, "callGroups", all_groups);
 	if (path->s.empty()) host->probe("empty_path");
 	bool either = allow_either_add && (long)elems.size() >= (1L << (g_variant.element_order - 1));
+	if (add_local_only) { either = true; host->probe("add_from_local_origin"); } // the statement only says add is accepted *only* from local origins: a local origin may still be refused
 	elems[e.path] = e;
 	if (!either) {
 		notify(e, "add");
@@ -245,7 +246,10 @@ bool Model::do_add(int c, const JV &req, const JV &params) {
 	notify(elems[pth], "add");
 	host = save;
 	const JV *id = req.get("id");
-	if (id && (id->t == JV::Str || id->t == JV::Num)) {
+	if (!host->observable(c)) {
+		// the requester's stream cannot be observed any more: a notification to a subscriber proves acceptance, silence counts as refusal
+		decisions[d].silent_refusal = true;
+	} else if (id && (id->t == JV::Str || id->t == JV::Num)) {
 		Exp x; x.kind = Exp::RESP; x.rk = Exp::R_EITHER; x.id = *id; x.prop = "C04"; x.why = "add at capacity"; x.group = group_ctr; x.rank = 1; x.decision = d;
 		host->expect(c, x);
 	} else {
@@ -315,7 +319,7 @@ bool Model::do_setcall(int c, const JV &req, const JV &params, bool is_call) {
 	else { r.params = JV::obj(); r.params.set("value", *val); }
 	int ref = (int)routed.size();
 	int inflight = 0; for (auto &x : routed) if (x.state == 0 && x.owner == e.owner) inflight++;
-	bool either = allow_either_route && inflight >= (1 << (g_variant.routing_order - 1));
+	bool either = (allow_either_route && inflight >= (1 << (g_variant.routing_order - 1))) || route_may_fail;
 	routed.push_back(r);
 	host->probe(std::string("timeout_precedence:") + tprec);
 	if (c == e.owner) host->probe("self_routed");
@@ -486,6 +490,7 @@ bool Model::rpc(int c, const JV &req) {
 }
 
 bool Model::on_message(int c, const std::string &text) {
+	{ auto it = peers.find(c); if (it == peers.end() || !it->second.alive) return false; } // nothing a released connection sent is processed
 	group_ctr++;
 	JV j;
 	bool ok = json_parse(text, j);
@@ -550,7 +555,7 @@ void Model::on_timer_armed(int fd, uint64_t ns) {
 	for (int i = (int)routed.size() - 1; i >= 0; i--) {
 		Routed &r = routed[i];
 		if (r.timerfd >= 0) break;
-		if (r.state != 0) continue;
+		if (r.state != 0 || r.timerfd == -2) continue;
 		r.timerfd = fd;
 		int64_t diff = (int64_t)ns - (int64_t)r.timeout_ns;
 		if (diff < -1000 || diff > 1000000)
@@ -576,7 +581,17 @@ void Model::on_timer_fired(int fd) {
 	}
 }
 
-void Model::on_timer_closed(int fd) { (void)fd; }
+void Model::on_timer_closed(int fd) {
+	for (auto &r : routed) if (r.timerfd == fd) return;
+	// a timer that was created and released without ever being armed: the set-up of the most recent request was abandoned
+	for (int i = (int)routed.size() - 1; i >= 0; i--) {
+		Routed &r = routed[i];
+		if (r.timerfd >= 0) break;
+		if (r.state != 0 || r.timerfd == -2) continue;
+		r.timerfd = -2; host->probe("request_setup_abandoned");
+		return;
+	}
+}
 
 void Model::check_deadlines(uint64_t now, bool final) {
 	for (auto &r : routed) {
